@@ -34,8 +34,25 @@ func GenCase(t *rapid.T, mode string) Case {
 			m = mem()
 		}
 		switch {
-		case k < 25:
+		case k < 20:
 			c.Ops = append(c.Ops, Op{K: "gen", M: m, Count: rapid.SampledFrom(counts).Draw(t, "count")})
+		case k < 25:
+			// manual reset beyond the stored window, grants up there, then a take-over: the successor
+			// must still start above everything granted (needs the reset to have extended the window)
+			to := mem()
+			c.Ops = append(c.Ops, Op{K: "settso", M: m, Rel: rapid.SampledFrom([]string{"edge", "edge+1", "+save", "+1h", "gap-1"}).Draw(t, "farRel")},
+				Op{K: "gen", M: m, Count: rapid.SampledFrom([]uint32{1, 10, 1000}).Draw(t, "c1")})
+			how := rapid.SampledFrom([]string{"resign", "crash"}).Draw(t, "how2")
+			for i := 0; i < c.Cfg.Members; i++ {
+				c.Ops = append(c.Ops, Op{K: how, M: i})
+			}
+			if how == "crash" {
+				for i := 0; i < c.Cfg.Members; i++ {
+					c.Ops = append(c.Ops, Op{K: "restart", M: i, D: rapid.SampledFrom([]int64{0, -3600_000, -1}).Draw(t, "roff2")})
+				}
+			}
+			c.Ops = append(c.Ops, Op{K: "campaign", M: to}, Op{K: "gen", M: to, Count: 1})
+			cur = to
 		case k < 37:
 			c.Ops = append(c.Ops, Op{K: "clockall", D: rapid.SampledFrom([]int64{1, 2, 3, 50, c.Cfg.SaveMs}).Draw(t, "tick")}, Op{K: "update", M: m})
 		case k < 45:
